@@ -218,6 +218,10 @@ func (s *Service) refreshProposerDutiesForEpoch(ctx context.Context, epoch phase
 	defer span.End()
 
 	// First thing we do is cancel all scheduled beacon bock proposal jobs for the epoch.
+	// Wait for any scheduling of proposals that is in progress to finish, so that its jobs are cancelled as well,
+	// and keep any other scheduling out until the replacement jobs are in place.
+	s.proposerDutiesMutex.Lock()
+	defer s.proposerDutiesMutex.Unlock()
 	for slot := s.chainTimeService.FirstSlotOfEpoch(epoch); slot < s.chainTimeService.FirstSlotOfEpoch(epoch+1); slot++ {
 		s.scheduler.CancelJobIfExists(ctx, fmt.Sprintf("Early beacon block proposal for slot %d", slot))
 		s.scheduler.CancelJobIfExists(ctx, fmt.Sprintf("Beacon block proposal for slot %d", slot))
@@ -235,7 +239,7 @@ func (s *Service) refreshProposerDutiesForEpoch(ctx context.Context, epoch phase
 		return
 	}
 
-	s.scheduleProposals(ctx, epoch, validatorIndices, true /* notCurrentSlot */)
+	s.scheduleProposalsLocked(ctx, epoch, validatorIndices, true /* notCurrentSlot */)
 }
 
 func (s *Service) refreshAttesterDutiesForEpoch(ctx context.Context, epoch phase0.Epoch) {
